@@ -17,6 +17,12 @@
 #define VP_C_END
 #endif
 
+/* native twin flavours: VP_NATIVE_DYN = real headers, real virtual dispatch, environment classes are real subclasses;
+ * VP_NATIVE_STATIC = the mirrored headers (N2) with -Dvirtual= like the cbmc build: environment objects are raw storage
+ * and calls bind statically to the environment definitions (units whose collaborators are concrete library classes) */
+#if defined(VP_NATIVE) && !defined(VP_NATIVE_STATIC)
+#define VP_NATIVE_DYN 1
+#endif
 #ifdef VP_NATIVE
 /* contract clauses vanish natively */
 #define __CPROVER_requires(...)
